@@ -1,21 +1,35 @@
 #!/usr/bin/env python3
-"""tools/mutrun.py <file> <old> <new> <prop>[,<prop>...] : replace first occurrence of old by new in /repo/<file>,
-run the quick checks, then restore. For ad-hoc checker self-tests during development."""
-import subprocess, sys
+"""tools/mutrun.py <file> <old> <new> <prop>[,<prop>...|all] : replace the first occurrence of old by new in <file> of a
+scratch worktree of /repo's HEAD (never /repo itself), check that it builds, run the quick checks against the
+scratch tree, then restore it. For ad-hoc checker self-tests during development."""
+import subprocess, sys, os
 f, old, new, props = sys.argv[1:5]
-path = '/repo/' + f
+wt = '/tmp/mr_wt'
+env = dict(os.environ)
+env['PATH'] = '/opt/veriftools/go1.26.8/bin:' + env['PATH']
+env.update(GOTOOLCHAIN='local', GOFLAGS='-mod=mod', GOPROXY='off', GOSUMDB='off', CGO_ENABLED='0', ARK_REPO=wt)
+env.pop('GOWORK', None)
+if not os.path.isdir(wt):
+    subprocess.run(['git', '-C', '/repo', 'worktree', 'add', '-q', '--detach', wt, 'HEAD'], check=True)
+else:
+    subprocess.run(['git', '-C', wt, 'checkout', '-q', '--detach', subprocess.run(['git', '-C', '/repo', 'rev-parse', 'HEAD'], capture_output=True, text=True).stdout.strip()])
+    subprocess.run(['git', '-C', wt, 'checkout', '-q', '--', '.'])
+path = wt + '/' + f
 s = open(path).read()
 if old not in s:
     print('PATTERN NOT FOUND'); sys.exit(2)
-open(path, 'w').write(s.replace(old, new, 1))
+open(path, "w").write(s.replace(old, new) if os.environ.get("ALL") else s.replace(old, new, 1))
 try:
-    b = subprocess.run('cd /repo && go build ./ecs/ 2>&1 | head -5', shell=True, capture_output=True, text=True)
+    b = subprocess.run('go build ./ecs/ 2>&1 | head -5', shell=True, capture_output=True, text=True, cwd=wt, env=env)
     if b.stdout.strip():
         print('BUILD:', b.stdout)
+    if os.environ.get('SUITE'):
+        t = subprocess.run('go test -vet=off -count=1 ./ecs/ 2>&1 | tail -3', shell=True, capture_output=True, text=True, cwd=wt, env=env)
+        print('SUITE:', t.stdout.strip())
     for p in props.split(','):
-        r = subprocess.run(['/verif/run.sh', '-property', p], capture_output=True, text=True)
+        r = subprocess.run(['/verif/bin/arkcheck', '-property', p, '-out', '/tmp/mr_out'], capture_output=True, text=True, env=env)
         lines = (r.stdout + r.stderr).strip().split('\n')
-        print('\n'.join([l for l in lines if 'VIOLATION' in l or '[C' in l or 'UNDECIDED' in l] or lines[-3:]))
+        print('\n'.join([l[:420] for l in lines if 'VIOLATION' in l or '[C' in l or 'UNDECIDED' in l] or lines[-3:]))
         print('exit', r.returncode)
 finally:
-    open(path, 'w').write(s)
+    subprocess.run(['git', '-C', wt, 'checkout', '-q', '--', '.'])
